@@ -75,6 +75,8 @@ def classify_numeric_string(s, lo=0, hi=U256_MAX):
         return ("accept", v) if canonical else ("either", v)
     if s == "" or body == "" or s in ("0x", "-0x", "-"):
         return ("reject", "empty")
+    if re.match(r"[+-]?0[xX][+\-]", s):
+        return ("reject", "not-a-number")  # a sign after the prefix: 0x+a, 0x-1
     if lo == 0 and re.match(r"-(0x[0-9a-fA-F]*[1-9a-fA-F][0-9a-fA-F]*|[0-9]*[1-9][0-9]*)\Z", s):
         return ("reject", "negative")
     if re.match(r"-?[0-9]+\.[0-9]*[1-9][0-9]*\Z", s):
@@ -120,6 +122,7 @@ def selftest():
     assert s("-1") == ("reject", "negative") and s("-0x1") == ("reject", "negative")
     assert s("1.5") == ("reject", "fraction-string") and s("12z") == ("reject", "not-a-number")
     assert s("hello") == ("reject", "not-a-number")
+    assert s("0x+a") == ("reject", "not-a-number") and s("0x-1") == ("reject", "not-a-number") and s("0x+") == ("reject", "not-a-number")
     assert s("+5") == ("either", 5) and s("007") == ("either", 7) and s("0b101") == ("either", 5)
     assert s("0o17") == ("either", 15) and s("1e3")[0] == "either" and s(" 5")[0] == "either"
     assert s("-5", lo=-128, hi=127) == ("accept", -5) and s("-0x80", lo=-128, hi=127) == ("accept", -128)
